@@ -24,12 +24,17 @@ MIN = {"tiling": (100000, 1000000), "block_line": (100000, 1000000), "field_line
 ALPHA = ["@a", "@comment", "@string", "{", "}", '"', ",", "=", "\n", " ", "\\", "x", "\r\n", "#", "%"]
 
 
+# the other block delimiters of BibTeX, `@type( ... )` (seed C03-l: a parenthesised block reported as a failed block whose
+# line breaks are not counted): the library need not support them, but raws must tile and lines must be true around them
+ALPHA_PAREN = ["@a", "(", ")", "{", "}", ",", "=", "\n", "x", " "]
+
+
 def _L(tier):
     return tier_pick(tier, 5, 6)
 
 
 def exhaustive(tier):
-    return f"all token sequences of length <= {_L(tier)} over {ALPHA!r}"
+    return f"all token sequences of length <= {_L(tier)} over {ALPHA!r}; all of length <= {_L(tier) + 1} with a parenthesis over {ALPHA_PAREN!r}"
 
 
 FAMILY = [
@@ -52,6 +57,9 @@ def cases(tier, seed, shard, nshards):
             yield {"k": "fam", "text": t}
     for seq in tokens.sequences(ALPHA, _L(tier), shard, nshards):
         yield {"k": "tok", "text": "".join(seq)}
+    for seq in tokens.sequences(ALPHA_PAREN, _L(tier) + 1, shard, nshards, minlen=3):
+        if "(" in seq or ")" in seq:
+            yield {"k": "tok", "text": "".join(seq)}
     if tier == "thorough":
         for seq in tokens.sequences_stride(ALPHA, 7, shard, nshards, stride=41, offset=seed % 41):
             yield {"k": "tok", "text": "".join(seq)}
@@ -72,7 +80,7 @@ def cases(tier, seed, shard, nshards):
         elif mode == 2:
             yield {"k": "corrupt", "text": garbage.corrupt(r, text)}
         elif mode == 3:
-            yield {"k": "bsnl", "text": garbage.inject(r, text, ["\\\n", "\\\r\n", "\\", "\n", "@x{", "\n\n"])}
+            yield {"k": "bsnl", "text": garbage.inject(r, text, ["\\\n", "\\\r\n", "\\", "\n", "@x{", "\n\n", "@x(", "(", ")", "@string(s = {v}\n)\n", "@x(k,\n t = {v}\n)\n"])}
         else:
             # white space other than blank/tab/CR/LF next to existing white space and commas: str.strip(), \s and
             # str.isspace() accept it, ASCII-only patterns do not (seed C03-g); the recogniser re-derives the positions
